@@ -19,6 +19,8 @@
 (***************************************************************************)
 EXTENDS AOG, TLC
 
+CONSTANT DisjTrueAll   \* FALSE in formula.py; TRUE: a true disjunction makes all its children true (must be caught: vacuity guard)
+
 VARIABLES g,        \* graph
           ev,       \* evidence literals (signed node ids)
           queue,    \* set of signed node ids
@@ -67,7 +69,7 @@ Process(nid) ==
                THEN /\ queue' = q1 \cup (IF AbsK(rest[1]) \in DOMAIN cur1 THEN {} ELSE { IF nid < 0 THEN -rest[1] ELSE rest[1] })
                     /\ air' = IF AbsK(rest[1]) \in DOMAIN cur1 THEN air0 ELSE AirDiscard(air0, AbsK(rest[1]), a)
                     /\ current' = cur1 /\ status' = status
-               ELSE IF (nid > 0 /\ n.t = "conj") \/ (nid < 0 /\ n.t = "disj")
+               ELSE IF (nid > 0 /\ n.t = "conj") \/ (nid < 0 /\ n.t = "disj") \/ (DisjTrueAll /\ nid > 0 /\ n.t = "disj")
                THEN /\ queue' = q1 \cup { IF nid > 0 THEN rest[i] ELSE -rest[i] : i \in { j \in DOMAIN rest : AbsK(rest[j]) \notin DOMAIN cur1 } }
                     /\ air' = FoldAir(air0, rest, a, FALSE)
                     /\ current' = cur1 /\ status' = status
